@@ -23,7 +23,50 @@ fn load(bytes: &[u8]) -> Result<Document, String> {
     }
 }
 
+/// Calls that must not influence later ones: the property holds for every document whatever the process did
+/// before.  Between cases the driver loads rejected / unusual inputs on the same threads (state that leaks
+/// across calls - thread-local counters, caches keyed on addresses - then shows up in the next case).
+fn disturb(rng: &mut Rng) {
+    use lopdf::content::Content;
+    match rng.below(6) {
+        0 => {
+            // an object nested deeper than the parser accepts (the object is rejected, the load succeeds)
+            let mut d = Document::with_version("1.7");
+            d.objects.insert((1, 0), gen::nested(49 + rng.below(30), rng.chance(1, 2), Object::Integer(1)));
+            d.objects.insert((2, 0), gen::nested(48, rng.chance(1, 2), Object::Integer(1)));
+            d.max_id = 2;
+            let mut b = Vec::new();
+            let _ = guarded(|| d.save_to(&mut b));
+            let _ = guarded(|| Document::load_mem(&b));
+        }
+        1 => {
+            // many empty containers
+            let mut d = Document::with_version("1.7");
+            d.objects.insert((1, 0), Object::Array((0..80).map(|i| if i % 2 == 0 { Object::Array(vec![]) } else { Object::Dictionary(lopdf::Dictionary::new()) }).collect()));
+            d.max_id = 1;
+            let mut b = Vec::new();
+            let _ = guarded(|| d.save_to(&mut b));
+            let _ = guarded(|| Document::load_mem(&b));
+        }
+        2 => {
+            for _ in 0..50 {
+                let _ = guarded(|| Content::decode(b"[ [ [ (unterminated"));
+                let _ = guarded(|| Content::decode(b"<< /A << /B [ 1 2"));
+            }
+        }
+        3 => {
+            let _ = guarded(|| Document::load_mem(b"%PDF-1.4\n1 0 obj\n[[[[[[\nendobj\nxref\n0 1\n0000000000 65535 f \ntrailer\n<</Size 2>>\nstartxref\n32\n%%EOF"));
+        }
+        4 => {
+            let _ = guarded(|| Document::load_mem(&[0x25, 0x50, 0x44, 0x46, 0x2d, 0xff, 0xfe, 0x00]));
+        }
+        _ => {}
+    }
+}
+
 fn record(args: &[String]) {
+    // few worker threads: more history per thread
+    let _ = rayon::ThreadPoolBuilder::new().num_threads(2).build_global();
     let seed = arg_u64(args, "--seed", 1);
     let n = arg_u64(args, "--n", 50);
     let max_objects = arg_u64(args, "--max-objects", 8) as usize;
@@ -70,10 +113,20 @@ fn record(args: &[String]) {
                 }
             }
         }
+        // size boundaries: now and then the last object is a stream that carries the cross-reference section
+        // across a power of 256 (offsets needing one more byte than every object header offset)
+        if case % 40 == 7 || case % 40 == 28 {
+            let last = doc.max_id + 1;
+            let size = 65_536 - 700 + rng.below(600);
+            let body: Vec<u8> = (0..size).map(|i| b"0123456789abcdef \n"[i % 18]).collect();
+            doc.objects.insert((last, 0), Object::Stream(lopdf::Stream::new(lopdf::Dictionary::new(), body)));
+            doc.max_id = last;
+        }
         let fmt = if case % 2 == 0 { "table" } else { "stream" };
         doc.reference_table.cross_reference_type =
             if fmt == "table" { XrefType::CrossReferenceTable } else { XrefType::CrossReferenceStream };
         out.put(&json!({"ev": "Reset", "case": case}));
+        disturb(&mut rng);
         let mut cur = doc;
         let mut first_bytes: Option<Vec<u8>> = None;
         for cycle in 1..=2 {
